@@ -73,6 +73,8 @@ type nodeJ struct {
 }
 type repoJ struct {
 	Root          string
+	Alias         string
+	Description   string
 	DataInstances map[string]json.RawMessage
 	DAG           struct {
 		Root  string
@@ -552,6 +554,35 @@ func (w *world) exec(rq Req, sn *Snap) result {
 			return errRes(err)
 		}
 		return errRes(datastore.DeleteRepo(uuid, rq.Pass))
+	case "repoinfo":
+		// POST /api/repo/<uuid>/info -> datastore.SetRepoAlias / SetRepoDescription
+		res := classOf(dv.PostJSON("/api/repo/"+up+"/info", map[string]string{"alias": rq.Name, "description": rq.New}))
+		if res.class == "ok" {
+			// what was set is what repos/info shows for the repo the reference names
+			if uuid, _, err := datastore.MatchingUUID(us); err == nil {
+				a, _ := datastore.GetRepoAlias(uuid)
+				d, _ := datastore.GetRepoDescription(uuid)
+				if a != rq.Name || d != rq.New {
+					fmt.Fprintf(os.Stderr, "c07: POST repo/%s/info answered 200 but alias/description are %q/%q, sent %q/%q\n", us, a, d, rq.Name, rq.New)
+					os.Exit(3)
+				}
+			}
+		}
+		return res
+	case "hidebranch":
+		// server/rpc.go "repo <uuid> hide-branch <branch-name>" (the rpc reply hides the error: it is only logged)
+		uuid, _, err := datastore.MatchingUUID(us)
+		if err != nil {
+			return errRes(err)
+		}
+		return errRes(datastore.HideBranch(uuid, w.str(rq.Branch)))
+	case "makemaster":
+		// server/rpc.go "repo <uuid> make-master <old-master-branch-name>"
+		uuid, _, err := datastore.MatchingUUID(us)
+		if err != nil {
+			return errRes(err)
+		}
+		return errRes(datastore.MakeMaster(uuid, w.str(rq.Branch)))
 	case "restart":
 		// auxiliary: close and reopen the datastore (metadata is reloaded from the store); not a
 		// request: whatever it changes shows up against the model at the next request
@@ -600,6 +631,18 @@ func newNodes(a, b *Snap) []Node {
 }
 
 func (w *world) reqTerm(rq Req, before, after *Snap, resolvedParents []string) string {
+	switch rq.Kind {
+	case "repoinfo":
+		return "XRepoInfo " + w.uref(rq.U)
+	case "hidebranch":
+		return fmt.Sprintf("XHideBranch %s %s", w.uref(rq.U), w.coq(rq.Branch))
+	case "makemaster":
+		return fmt.Sprintf("XMakeMaster %s %s", w.uref(rq.U), w.coq(rq.Branch))
+	}
+	return "XB (" + w.baseTerm(rq, before, after, resolvedParents) + ")"
+}
+
+func (w *world) baseTerm(rq Req, before, after *Snap, resolvedParents []string) string {
 	nn := newNodes(before, after)
 	fresh := coqStr("-")
 	if len(nn) > 0 {
@@ -738,6 +781,12 @@ func runSeqMode(rng *lib.Rand, canon bool, next func(w *world, sn *Snap, i int) 
 		if len(after.Nodes) > out.maxNode {
 			out.maxNode = len(after.Nodes)
 		}
+		if (rq.Kind == "hidebranch" || rq.Kind == "makemaster") && res.class == "ok" && brokenGraph(sn, after, rq, w) {
+			// the graph is no longer well formed (findings C07-hide-branch-orphans / C07-make-master-names):
+			// the oracle reports it at this step; nothing meaningful can follow
+			sn = after
+			break
+		}
 		sn = after
 	}
 	// let-bind every UUID that is referred to by name
@@ -757,6 +806,102 @@ func runSeqMode(rng *lib.Rand, canon bool, next func(w *world, sn *Snap, i int) 
 	out.term = sb.String()
 	out.stepTerms = terms
 	return out
+}
+
+// after an accepted hide-branch / make-master: does a node list a parent that is no node, does a
+// node of a named branch have other than one parent, is a node on a branch literally called
+// "master", or did make-master reuse a branch name that was in use
+func brokenGraph(before, after *Snap, rq Req, w *world) bool {
+	have := map[string]bool{}
+	for _, n := range after.Nodes {
+		have[n.Repo+"|"+strconv.Itoa(n.VersionID)] = true
+	}
+	for _, n := range after.Nodes {
+		for _, p := range n.Parents {
+			if !have[n.Repo+"|"+strconv.Itoa(p)] {
+				return true
+			}
+		}
+		if n.Branch != "" && len(n.Parents) != 1 {
+			return true
+		}
+		if n.Branch == "master" {
+			return true
+		}
+	}
+	if rq.Kind == "makemaster" {
+		name := w.str(rq.Branch)
+		for _, n := range before.Nodes {
+			if n.Branch == name {
+				return true
+			}
+		}
+	}
+	return false
+}
+
+// no node outside branch b of the repo has a parent on it
+func branchClosed(sn *Snap, repo, b string) bool {
+	on := map[int]bool{}
+	for _, n := range sn.Nodes {
+		if n.Repo == repo && n.Branch == b {
+			on[n.VersionID] = true
+		}
+	}
+	for _, n := range sn.Nodes {
+		if n.Repo == repo && n.Branch != b {
+			for _, p := range n.Parents {
+				if on[p] {
+					return false
+				}
+			}
+		}
+	}
+	return true
+}
+
+func nodeAt(sn *Snap, repo string, v int) (Node, bool) {
+	for _, n := range sn.Nodes {
+		if n.Repo == repo && n.VersionID == v {
+			return n, true
+		}
+	}
+	return Node{}, false
+}
+
+// n is the first node of a named branch, its parent is on the default branch and has a child there,
+// and the old master chain below that child holds no merge node
+func makeMasterFits(sn *Snap, n Node) bool {
+	if n.Branch == "" || len(n.Parents) != 1 {
+		return false
+	}
+	p, ok := nodeAt(sn, n.Repo, n.Parents[0])
+	if !ok || p.Branch != "" {
+		return false
+	}
+	cur, found := Node{}, false
+	for _, c := range p.Children {
+		if m, ok := nodeAt(sn, n.Repo, c); ok && m.Branch == "" {
+			cur, found = m, true
+			break
+		}
+	}
+	for found {
+		if len(cur.Parents) != 1 {
+			return false
+		}
+		found = false
+		for _, c := range cur.Children {
+			if m, ok := nodeAt(sn, n.Repo, c); ok && m.Branch == "" {
+				cur, found = m, true
+				break
+			}
+		}
+		if !found {
+			return true
+		}
+	}
+	return false
 }
 
 // ---------- generator
@@ -1045,8 +1190,8 @@ func (g *gen) next(w *world, sn *Snap, i int) (Req, bool) {
 	sort.Strings(mergeRepos)
 	sort.Strings(dataRepos)
 
-	kinds := []string{"commit", "newversion", "branch", "tag", "merge", "resolve", "post", "newdata", "dataop", "newrepo", "delrepo", "resolvescn", "restart"}
-	weights := []int{20, 16, 13, 8, 14, 5, 5, 8, 4, 5, 3, 4, 2}
+	kinds := []string{"commit", "newversion", "branch", "tag", "merge", "resolve", "post", "newdata", "dataop", "newrepo", "delrepo", "resolvescn", "restart", "hide", "mmaster", "repoinfo"}
+	weights := []int{20, 16, 13, 8, 14, 5, 5, 8, 4, 5, 3, 4, 2, 4, 4, 2}
 	tot := 0
 	for _, x := range weights {
 		tot += x
@@ -1380,6 +1525,82 @@ func (g *gen) next(w *world, sn *Snap, i int) (Req, bool) {
 				rq.Type = "nosuchtype"
 			}
 		}
+		return rq, true
+
+	case "repoinfo":
+		rq := Req{Kind: "repoinfo", U: g.ref(sn, anyNode), Name: g.freshName("alias"), New: "descr " + strconv.Itoa(g.names)}
+		if hostile {
+			rq.U = g.bogusRef(sn)
+		}
+		return rq, true
+
+	case "hide":
+		// hide-branch: a named branch of some repo.  Well behaved: a branch nothing outside it hangs
+		// off (no branch, tag or merge below it).  Hostile: any branch, the default branch by its two
+		// names, an unknown name, a name of another repo, a bogus reference.
+		named := filterNodes(sn.Nodes, func(n Node) bool { return n.Branch != "" })
+		closed := filterNodes(named, func(n Node) bool { return branchClosed(sn, n.Repo, n.Branch) })
+		n, ok := pickNode(rng, closed)
+		if !ok || hostile && rng.Chance(0.5) {
+			if n, ok = pickNode(rng, named); !ok {
+				n = anyNode
+			}
+		}
+		at, _ := pickNode(rng, filterNodes(sn.Nodes, func(m Node) bool { return m.Repo == n.Repo }))
+		rq := Req{Kind: "hidebranch", U: g.ref(sn, at), Branch: L(n.Branch)}
+		if n.Branch == "" {
+			rq.Branch = L("nosuchbranch")
+		}
+		if hostile {
+			switch rng.Intn(6) {
+			case 0:
+				rq.U = g.bogusRef(sn)
+			case 1:
+				rq.Branch = L("")
+			case 2:
+				rq.Branch = L("master")
+			case 3:
+				rq.Branch = L("nosuchbranch")
+			case 4:
+				rq.U = g.ref(sn, anyNode) // possibly another repo
+			}
+		}
+		g.stats["hide-branch"]++
+		return rq, true
+
+	case "mmaster":
+		// make-master: well behaved = the first node of a named branch that hangs off a node of the
+		// default branch which also has a child on the default branch; the old master gets a fresh name.
+		// Hostile: the name "master", "", a name in use, the promoted branch's own name; a node of the
+		// default branch, a node in the middle of a branch, a node off a named branch, a bogus reference.
+		firsts := filterNodes(sn.Nodes, func(n Node) bool { return makeMasterFits(sn, n) })
+		named := filterNodes(sn.Nodes, func(n Node) bool { return n.Branch != "" })
+		n, ok := pickNode(rng, firsts)
+		if !ok || hostile && rng.Chance(0.4) {
+			if n, ok = pickNode(rng, named); !ok {
+				n = anyNode
+			}
+		}
+		rq := Req{Kind: "makemaster", U: g.ref(sn, n), Branch: L(g.freshName("oldmaster"))}
+		if hostile {
+			switch rng.Intn(7) {
+			case 0:
+				rq.U = g.bogusRef(sn)
+			case 1:
+				rq.Branch = L("")
+			case 2:
+				rq.Branch = L("master")
+			case 3:
+				if m, ok := pickNode(rng, named); ok {
+					rq.Branch = L(m.Branch)
+				}
+			case 4:
+				rq.Branch = L(n.Branch)
+			case 5:
+				rq.U = g.ref(sn, anyNode)
+			}
+		}
+		g.stats["make-master"]++
 		return rq, true
 
 	case "dataop":
@@ -1745,11 +1966,60 @@ func c02Case() []Req {
 		{Kind: "commit", U: Cat(T(1), L(":master~0"))}}
 }
 
+// round 4: hide-branch, make-master, POST repo info
+func xcorpus() [][]Req {
+	sp := func(s SX) *SX { return &s }
+	// root 1 committed; 2 = newversion (master), 3 = branch a, 4 = branch b; 2 and 3 committed;
+	// 5 = newversion on 2 (master), 6 = newversion on 3 (a)
+	base := []Req{{Kind: "newrepo"}, {Kind: "commit", U: T(1)}, {Kind: "newversion", U: T(1), Assign: L("")},
+		{Kind: "branch", U: T(1), Branch: L("a"), Assign: L("")}, {Kind: "branch", U: T(1), Branch: L("b"), Assign: L("")},
+		{Kind: "commit", U: T(2)}, {Kind: "commit", U: T(3)},
+		{Kind: "newversion", U: T(2), Assign: L("")}, {Kind: "newversion", U: T(3), Assign: L("")}}
+	with := func(more ...Req) []Req { return append(append([]Req{}, base...), more...) }
+	return [][]Req{
+		// alias / description: accepted for every kind of reference, refused for unknown ones, nothing else moves
+		with(Req{Kind: "repoinfo", U: T(1), Name: "al", New: "de"}, Req{Kind: "repoinfo", U: P(6, 9), Name: "", New: ""},
+			Req{Kind: "repoinfo", U: Cat(T(1), L(":a")), Name: "x", New: "y"}, Req{Kind: "repoinfo", U: L("zz"), Name: "x", New: "y"},
+			Req{Kind: "restart"}, Req{Kind: "repoinfo", U: T(4), Name: "al2", New: "de2"}),
+		// hide-branch of branches nothing hangs off: the nodes and their ids are gone (also after a
+		// restart), the names and the UUIDs can be used again; refused: "", unknown reference
+		with(Req{Kind: "hidebranch", U: T(1), Branch: L("")}, Req{Kind: "hidebranch", U: L("zz"), Branch: L("a")},
+			Req{Kind: "hidebranch", U: T(4), Branch: L("b")}, Req{Kind: "note", U: T(4)}, Req{Kind: "commit", U: P(4, 10)},
+			Req{Kind: "hidebranch", U: T(6), Branch: L("a")}, Req{Kind: "note", U: Cat(T(1), L(":a"))},
+			Req{Kind: "hidebranch", U: T(1), Branch: L("nosuchbranch")}, Req{Kind: "hidebranch", U: T(1), Branch: L("master")},
+			Req{Kind: "restart"}, Req{Kind: "note", U: T(3)},
+			Req{Kind: "branch", U: T(1), Branch: L("a"), Assign: T(3)}, Req{Kind: "newrepo", Root: sp(T(6))},
+			Req{Kind: "restart"}, Req{Kind: "commit", U: T(3)}),
+		// hide-branch of a branch another branch hangs off (finding C07-hide-branch-orphans)
+		with(Req{Kind: "branch", U: T(3), Branch: L("c"), Assign: L("")}, Req{Kind: "hidebranch", U: T(1), Branch: L("a")}),
+		// ... and of a branch a merge node hangs off
+		with(Req{Kind: "merge", U: T(1), MType: "conflict-free", Parents: []SX{T(2), T(3)}}, Req{Kind: "hidebranch", U: T(1), Branch: L("a")}),
+		// make-master: a becomes the default branch, the old master chain 2-5 is renamed; refused
+		// before: "", a node of the default branch, the root, an unknown reference
+		with(Req{Kind: "makemaster", U: T(3), Branch: L("")}, Req{Kind: "makemaster", U: T(2), Branch: L("old")},
+			Req{Kind: "makemaster", U: T(1), Branch: L("old")}, Req{Kind: "makemaster", U: L("zz"), Branch: L("old")},
+			Req{Kind: "makemaster", U: T(3), Branch: L("old")},
+			Req{Kind: "note", U: Cat(T(1), L(":master"))}, Req{Kind: "note", U: Cat(T(1), L(":old~1"))}, Req{Kind: "note", U: Cat(T(1), L(":a"))},
+			Req{Kind: "restart"}, Req{Kind: "commit", U: Cat(T(1), L(":master"))}, Req{Kind: "newversion", U: T(6), Assign: L("")},
+			Req{Kind: "commit", U: T(5)}, Req{Kind: "newversion", U: Cat(T(1), L(":old")), Assign: L("")},
+			Req{Kind: "makemaster", U: T(2), Branch: L("older")}, Req{Kind: "hidebranch", U: T(1), Branch: L("older")}),
+		// make-master from the middle of a branch (6 is the second node of a; its parent 3 has no child on the default branch)
+		with(Req{Kind: "makemaster", U: T(6), Branch: L("old")}),
+		// make-master with the name "master", a name in use, the promoted branch's own name (finding C07-make-master-names)
+		with(Req{Kind: "makemaster", U: T(3), Branch: L("master")}),
+		with(Req{Kind: "makemaster", U: T(3), Branch: L("b")}),
+		with(Req{Kind: "makemaster", U: T(3), Branch: L("a")}, Req{Kind: "note", U: Cat(T(1), L(":a"))}, Req{Kind: "note", U: Cat(T(1), L(":master"))}),
+		// make-master when the old master chain holds a merge node
+		with(Req{Kind: "commit", U: T(5)}, Req{Kind: "commit", U: T(6)},
+			Req{Kind: "merge", U: T(1), MType: "conflict-free", Parents: []SX{T(5), T(6)}}, Req{Kind: "makemaster", U: T(3), Branch: L("old")}),
+	}
+}
+
 func main() {
 	o := lib.ParseOpts()
 	dv.Quiet()
 	run := lib.NewRun("C07", o)
-	run.Header("From DV Require Import Base.Prelude Model.Repo Model.RepoRun.",
+	run.Header("From DV Require Import Base.Prelude Model.Repo Model.RepoExt Model.RepoRun.",
 		"From Coq Require Import String.", "Local Open Scope string_scope.", "Local Open Scope N_scope.")
 
 	total := map[string]int{}
@@ -1788,6 +2058,9 @@ func main() {
 		add("corpus", runSeq(lib.NewRand(o.Seed), replayList(steps)))
 	}
 	add("corpus", runSeq(lib.NewRand(o.Seed), replayList(c02Case())))
+	for _, steps := range xcorpus() {
+		add("corpus", runSeq(lib.NewRand(o.Seed), replayList(steps)))
+	}
 	budget, maxSeq := 145000, 300
 	if o.Thorough() {
 		budget, maxSeq = 700000, 3000
